@@ -3,7 +3,320 @@
 -/
 import Theo.Spec.Events
 import Theo.Props.C01
+import Theo.Proofs.SimEv6
+
+set_option linter.unusedSimpArgs false
+set_option linter.unusedSectionVars false
 
 namespace Theo
+namespace Sim
+open Sem WF
 
+/-! ### sites along longer runs -/
+
+theorem sitesPassed_prefix (p : Program) : ∀ (m : Nat) (vm : VM),
+    sitesPassed p m vm <+: sitesPassed p (m + 1) vm := by
+  intro m
+  induction m with
+  | zero => intro vm; exact List.nil_prefix
+  | succ m ih =>
+    intro vm
+    rw [sitesPassed.eq_def p (m + 1) vm, sitesPassed.eq_def p (m + 1 + 1) vm]
+    simp only
+    cases hs : Theo.step vm with
+    | error e => exact List.prefix_refl _
+    | ok r =>
+      obtain ⟨vm', b⟩ := r
+      simp only
+      exact (List.prefix_append_right_inj _).2 (ih vm')
+
+theorem sitesPassed_mono (p : Program) (vm : VM) {m M : Nat} (h : m ≤ M) :
+    sitesPassed p m vm <+: sitesPassed p M vm := by
+  induction M with
+  | zero =>
+    have : m = 0 := by omega
+    subst this
+    exact List.prefix_refl _
+  | succ M ih =>
+    rcases Nat.lt_or_ge m (M + 1) with hlt | hge
+    · exact (ih (by omega)).trans (sitesPassed_prefix p M vm)
+    · have : m = M + 1 := by omega
+      subst this
+      exact List.prefix_refl _
+
+theorem sitesPassed_halt (p : Program) {vm : VM} (h : vm.isDone = .ok true) :
+    ∀ j, sitesPassed p j vm = [] := by
+  have hf := InvB.isDone_halt h
+  have hs : Theo.step vm = .ok (vm, true) := by
+    rw [InvB.step_eq, hf]; rfl
+  intro j
+  induction j with
+  | zero => rfl
+  | succ j ih =>
+    rw [sitesPassed.eq_def]
+    simp only [hs, hf, ih]
+    rfl
+
+/-! ### the visit sequence -/
+
+theorem visits_stopped (src : Source) {c : Config} (h : c.status ≠ .running) :
+    ∀ n, visits src n c = [] := by
+  intro n
+  cases n with
+  | zero => rfl
+  | succ n =>
+    rw [visits.eq_def]
+    simp only
+
+theorem visitConfigs_stopped (src : Source) {c : Config} (h : c.status ≠ .running) :
+    ∀ n, visitConfigs src n c = [] := by
+  intro n
+  cases n with
+  | zero => rfl
+  | succ n =>
+    rw [visitConfigs.eq_def]
+    simp only
+
+theorem visits_succ (src : Source) {c : Config} (h : c.status = .running) (n : Nat) :
+    visits src (n + 1) c = (stepEvent c).toList ++ visits src n (Sem.step src c) := by
+  rw [visits.eq_def]
+  simp only [h]
+
+theorem visitConfigs_succ (src : Source) {c : Config} (h : c.status = .running) (n : Nat) :
+    visitConfigs src (n + 1) c =
+      (if (stepEvent c).isSome then [c] else []) ++ visitConfigs src n (Sem.step src c) := by
+  rw [visitConfigs.eq_def]
+  simp only [h]
+
+theorem iter_fixed (src : Source) {c : Config} (h : c.status ≠ .running) : ∀ n, iter src n c = c := by
+  intro n
+  induction n with
+  | zero => rfl
+  | succ n ih =>
+    show Sem.step src (iter src n c) = c
+    rw [ih, step_fixed src c h]
+
+/-- views agree at corresponding stops -/
+def StopsAgree' (p : Program) : List Config → List (BreakPoint × VM) → Prop
+  | [], [] => True
+  | c :: cs, (_, vm) :: vs => StacksAgree' p vm.data c.stack vm.stack ∧ StopsAgree' p cs vs
+  | _, _ => False
+
+theorem StopsAgree'.append {p : Program} : ∀ {a1 : List Config} {l1 : List (BreakPoint × VM)}
+    {a2 : List Config} {l2 : List (BreakPoint × VM)}, StopsAgree' p a1 l1 → StopsAgree' p a2 l2 →
+    StopsAgree' p (a1 ++ a2) (l1 ++ l2)
+  | [], [], _, _, _, h2 => h2
+  | _ :: _, (_, _) :: _, _, _, h1, h2 => ⟨h1.1, StopsAgree'.append h1.2 h2⟩
+  | [], _ :: _, _, _, h1, _ => nomatch h1
+  | _ :: _, [], _, _, h1, _ => nomatch h1
+
+theorem evOK_stops {p : Program} {cfg : Config} {L : List (BreakPoint × VM)} (h : EvOK p cfg L) :
+    StopsAgree' p (if (stepEvent cfg).isSome then [cfg] else []) L := by
+  obtain ⟨h1, h2⟩ := h
+  cases he : stepEvent cfg with
+  | none =>
+    rw [he] at h1
+    simp only [Option.toList, List.map_eq_nil_iff] at h1
+    subst h1
+    simp [StopsAgree']
+  | some q =>
+    rw [he] at h1
+    simp only [Option.toList] at h1
+    match L, h1, h2 with
+    | [x], _, h2 =>
+      obtain ⟨bp, v⟩ := x
+      simp only [Option.isSome_some, if_true, StopsAgree']
+      exact ⟨h2 _ (List.mem_singleton.2 rfl), trivial⟩
+
+section
+variable {src : Source} {p : Program} {V : Valid src p} {tend : Nat → Nat} {c : Cert} {R : PcInfo}
+  (hc : CertOK p c R) (hV : V.OK) (hT : TValid V tend)
+include hc hV hT
+
+/-! ### the initial state -/
+
+omit hV hT in
+theorem tskips_run {pc pcF : Nat} (hs : TSkips p.code pc pcF) : ∀ {vm : VM}, Good p c R.rid vm →
+    vm.ip = (pc : Int) →
+    ∃ vm', QS p vm vm' ∧ Good p c R.rid vm' ∧ vm'.ip = (pcF : Int) ∧ vm'.stack = vm.stack ∧
+      vm'.data = vm.data := by
+  induction hs with
+  | refl pc => intro vm hg ha; exact ⟨vm, ES.refl _ _, hg, ha, rfl, rfl⟩
+  | jump h1 h2 _ ih =>
+    intro vm hg ha
+    obtain ⟨vm1, s1, g1, ip1, st1, d1⟩ := q_jmp hc hg ha h1
+    obtain ⟨vm2, s2, g2, a2, st2, d2⟩ := ih g1 (by rw [ip1, h2])
+    exact ⟨vm2, s1.es.trans s2 |> fun h => by simpa using h, g2, a2, st2.trans st1, d2.trans d1⟩
+
+theorem init_matchT : ∃ vm, QS p (VM.mk' p) vm ∧ MatchT V tend c R (initial src) vm := by
+  obtain ⟨cnt, tgt, hhead⟩ := hV.head
+  have g0 := Good.init p c R.rid
+  obtain ⟨s1, g1⟩ := g0.exec1 hc (pc := 0) (vm' := { VM.mk' p with
+      data := [] ++ List.replicate cnt.toNat 0,
+      stack := [⟨0, cnt, tgt, -1, (src.progs.length : Int)⟩], ip := 0 + 1 }) (b := false)
+    rfl hhead (by simp) rfl
+  have q1 := quiet1 g0 (pc := 0) rfl hhead (by simp) (by simp) s1
+  obtain ⟨vm2, s2, g2, a2, st2, d2⟩ := tskips_run hc hT.skips g1 (show ((0 : Int) + 1) = ((1 : Nat) : Int) from rfl)
+  refine ⟨vm2, (q1.trans_qs s2).es, g2, rfl, ⟨V.start src.progs.length, a2, ?_⟩, ?_⟩
+  · rw [st2]
+    show StackRelT V tend vm2.data [_] [⟨0, cnt, tgt, -1, (src.progs.length : Int)⟩] _ 0
+    rw [stackRelT_cons]
+    refine ⟨⟨Nat.le_refl _, rfl, ?_, ?_⟩, rfl, rfl⟩
+    · have ham := winv_actMap g2.winv _ (by rw [st2]; exact List.mem_cons_self)
+      have hcnt : 0 ≤ cnt := ham.2
+      refine callee_frameOK (params := []) (vals := []) (hV.nodup _ (Nat.le_refl _)) (by rfl) rfl
+        (fun _ h => nomatch h) ?_ (actmap_regs hc hV (Nat.le_refl _) ham rfl)
+      intro r hr
+      have hr' : (r : Int) < cnt := hr
+      rw [d2]
+      show ([] ++ List.replicate cnt.toNat (0 : Int))[0 + r]? = _
+      rw [List.nil_append, List.getElem?_replicate, if_pos (by omega)]
+      rfl
+    · simp only [FrameAtT]
+      have := hT.body _ (Nat.le_refl _)
+      rw [bodyOf_root] at this
+      exact ⟨_, this, by simp only [TKAt]⟩
+  · intro fr rest h
+    cases h
+    exact fun ⟨_, _, h⟩ => nomatch h
+
+/-! ### the trace of a finite prefix -/
+
+theorem traceT : ∀ (n : Nat) (cfg : Config) (vm : VM), MatchT V tend c R cfg vm →
+    ∃ k vm', Steps vm k vm' ∧
+      (sitesPassed p k vm).map (fun x => posOfBp x.1) = visits src n cfg ∧
+      StopsAgree' p (visitConfigs src n cfg) (sitesPassed p k vm) ∧
+      (iter src n cfg).status ≠ .stuck ∧
+      ((iter src n cfg).status = .running → MatchT V tend c R (iter src n cfg) vm') ∧
+      ((iter src n cfg).status = .halted → vm'.isDone = .ok true) := by
+  intro n
+  induction n with
+  | zero =>
+    intro cfg vm hm
+    refine ⟨0, vm, Steps.refl _, rfl, by simp [visitConfigs, sitesPassed, StopsAgree'], ?_,
+      fun _ => hm, fun h => ?_⟩
+    · show cfg.status ≠ .stuck
+      rw [hm.run]; simp
+    · have : cfg.status = .halted := h
+      rw [hm.run] at this; cases this
+  | succ n ih =>
+    intro cfg vm hm
+    have hrun := hm.run
+    rw [iter_succ', visits_succ src hrun, visitConfigs_succ src hrun]
+    have hres := sim_stepT hc hV hT hm
+    cases hres with
+    | run vm1 L1 hr1 hs1 hev hm1 =>
+      have hes : ES p vm L1 vm1 := by
+        rcases hs1 with hs1 | ⟨rfl, rfl, _⟩
+        · exact hs1.es
+        · exact ES.refl _ _
+      obtain ⟨k1, st1, e1⟩ := hes
+      obtain ⟨k2, vm2, st2, e2, a2, b2, c2, d2⟩ := ih _ vm1 hm1
+      refine ⟨k1 + k2, vm2, st1.trans st2, ?_, ?_, b2, c2, d2⟩
+      · rw [sitesPassed_add p st1, List.map_append, e1, e2, hev.1]
+      · rw [sitesPassed_add p st1, e1]
+        exact (evOK_stops hev).append a2
+    | halt vm1 L1 hh1 hs1 hev hd1 _ =>
+      obtain ⟨k1, st1, e1⟩ := hs1
+      have hnr : (Sem.step src cfg).status ≠ .running := by rw [hh1]; simp
+      refine ⟨k1, vm1, st1, ?_, ?_, ?_, ?_, fun _ => hd1⟩
+      · rw [e1, visits_stopped src hnr, List.append_nil, hev.1]
+      · rw [e1, visitConfigs_stopped src hnr, List.append_nil]
+        exact evOK_stops hev
+      · rw [iter_fixed src hnr, hh1]; simp
+      · intro h; rw [iter_fixed src hnr, hh1] at h; cases h
+
+/-- C07, the visit sequence of `n` reference steps is the site sequence of some VM prefix -/
+theorem step_trace (n : Nat) :
+    ∃ m, (sitesPassed p m (VM.mk' p)).map (fun x => posOfBp x.1) = visits src n (initial src) ∧
+      StopsAgree' p (visitConfigs src n (initial src)) (sitesPassed p m (VM.mk' p)) := by
+  obtain ⟨vm0, ⟨k0, st0, e0⟩, hm0⟩ := init_matchT hc hV hT
+  obtain ⟨k, vm', st, e1, a1, _, _, _⟩ := traceT hc hV hT n _ vm0 hm0
+  refine ⟨k0 + k, ?_, ?_⟩
+  · rw [sitesPassed_add p st0, e0, List.nil_append]; exact e1
+  · rw [sitesPassed_add p st0, e0, List.nil_append]; exact a1
+
+/-! ### every VM prefix is covered by a source prefix -/
+
+theorem reachT : ∀ (N : Nat) (cfg : Config) (vm : VM), MatchT V tend c R cfg vm →
+    (∀ i, (iter src i cfg).status = .running) →
+    ∃ n k vm', N ≤ k ∧ Steps vm k vm' ∧
+      (sitesPassed p k vm).map (fun x => posOfBp x.1) = visits src n cfg := by
+  intro N
+  induction N with
+  | zero => intro cfg vm _ _; exact ⟨0, 0, vm, Nat.le_refl _, Steps.refl _, rfl⟩
+  | succ N ihN =>
+    have inner : ∀ (m : Nat) (cfg : Config) (vm : VM), cmeasure cfg = m → MatchT V tend c R cfg vm →
+        (∀ i, (iter src i cfg).status = .running) →
+        ∃ n k vm', N + 1 ≤ k ∧ Steps vm k vm' ∧
+          (sitesPassed p k vm).map (fun x => posOfBp x.1) = visits src n cfg := by
+      intro m
+      induction m using Nat.strongRecOn with
+      | _ m ih =>
+        intro cfg vm hmeas hm hdiv
+        have hdiv' : ∀ i, (iter src i (Sem.step src cfg)).status = .running := by
+          intro i; rw [← iter_succ']; exact hdiv (i + 1)
+        have hres := sim_stepT hc hV hT hm
+        cases hres with
+        | run vm1 L1 hr1 hs1 hev hm1 =>
+          rcases hs1 with ⟨k1, st1, e1⟩ | ⟨rfl, rfl, hlt⟩
+          · obtain ⟨n2, k2, vm2, hk2, st2, e2⟩ := ihN _ vm1 hm1 hdiv'
+            refine ⟨n2 + 1, k1 + 1 + k2, vm2, by omega, st1.trans st2, ?_⟩
+            rw [sitesPassed_add p st1, List.map_append, e1, e2, visits_succ src hm.run, hev.1]
+          · obtain ⟨n2, k2, vm2, hk2, st2, e2⟩ := ih _ (by rw [← hmeas]; exact hlt) _ _ rfl hm1 hdiv'
+            refine ⟨n2 + 1, k2, vm2, hk2, st2, ?_⟩
+            have h0 : (stepEvent cfg).toList = [] := by rw [← hev.1]; rfl
+            rw [e2, visits_succ src hm.run, h0, List.nil_append]
+        | halt vm1 L1 hh1 _ _ _ _ =>
+          have := hdiv 1
+          have e : iter src 1 cfg = Sem.step src cfg := rfl
+          rw [e, hh1] at this
+          cases this
+    intro cfg vm hm hdiv
+    exact inner _ cfg vm rfl hm hdiv
+
+/-- C07, the VM passes no site the reference execution does not visit -/
+theorem no_extra_stops (m : Nat) :
+    ∃ n, (sitesPassed p m (VM.mk' p)).map (fun x => posOfBp x.1) <+: visits src n (initial src) := by
+  obtain ⟨vm0, ⟨k0, st0, e0⟩, hm0⟩ := init_matchT hc hV hT
+  by_cases hdiv : ∀ i, (iter src i (initial src)).status = .running
+  · obtain ⟨n, k, vm', hk, st, e1⟩ := reachT hc hV hT m _ vm0 hm0 hdiv
+    refine ⟨n, ?_⟩
+    have hM : (sitesPassed p (k0 + k) (VM.mk' p)).map (fun x => posOfBp x.1) =
+        visits src n (initial src) := by
+      rw [sitesPassed_add p st0, e0, List.nil_append]; exact e1
+    rw [← hM]
+    exact (sitesPassed_mono p _ (by omega)).map _
+  · have hex : ∃ i, (iter src i (initial src)).status ≠ .running := by
+      apply Classical.byContradiction
+      intro hne
+      apply hdiv
+      intro i
+      apply Classical.byContradiction
+      intro hi
+      exact hne ⟨i, hi⟩
+    obtain ⟨i, hi⟩ := hex
+    obtain ⟨k, vm', st, e1, _, hns, _, hh⟩ := traceT hc hV hT i _ vm0 hm0
+    have hhalt : (iter src i (initial src)).status = .halted := by
+      cases hst : (iter src i (initial src)).status with
+      | running => exact absurd hst hi
+      | halted => rfl
+      | stuck => exact absurd hst hns
+    have hdone := hh hhalt
+    refine ⟨i, ?_⟩
+    have hM : (sitesPassed p (k0 + k) (VM.mk' p)).map (fun x => posOfBp x.1) =
+        visits src i (initial src) := by
+      rw [sitesPassed_add p st0, e0, List.nil_append]; exact e1
+    rw [← hM]
+    rcases Nat.le_total m (k0 + k) with hle | hge
+    · exact (sitesPassed_mono p _ hle).map _
+    · have : sitesPassed p m (VM.mk' p) = sitesPassed p (k0 + k) (VM.mk' p) := by
+        rw [show m = (k0 + k) + (m - (k0 + k)) by omega, sitesPassed_add p (st0.trans st),
+          sitesPassed_halt p hdone, List.append_nil]
+      rw [this]
+      exact List.prefix_refl _
+
+end
+
+end Sim
 end Theo
